@@ -45,7 +45,7 @@ def main(tier, seed, replay=None):
                 'persistent worker of a healthy client created before the faults must still answer. Non-trivial = a session that ends inside a message.')
     res.assumptions = ['kernel TCP behaviour on loopback (FIN vs RST delivery)', 'a client that stays silent without closing is outside the property']
     res.trusted.append('hand-written model Server/Model.v (pinned to RemoteServer.run); harness/server_tools.py')
-    core.prove(res, PROP, [], PROOFS, run_files=['theories/Server/Run.v'])
+    core.prove(res, PROP, ['ServerLoop'], PROOFS, run_files=['theories/Server/Run.v'])
     sys.path.insert(0, core.REPO)
     rnd = random.Random(seed)
     from pyworkers.persistent_remote import PersistentRemoteWorker
